@@ -81,9 +81,11 @@ func (n NativeRemoveFn) Call(i *Interpreter, arguments []interface{}) (interface
 	}
 
 	// Remove the element at the specified index
-	array = append(array[:index], array[index+1:]...)
+	result := make([]interface{}, 0, len(array)-1)
+	result = append(result, array[:index]...)
+	result = append(result, array[index+1:]...)
 
-	return array, nil
+	return result, nil
 }
 
 func (n NativeRemoveFn) Arity() int {
